@@ -47,28 +47,30 @@ CLASSES = {
     'Module': dict(fields={'name': 'str', 'parameters': 'dict:Parameter', 'commands': 'dict:Command',
                            'accessiblename2attr': 'dict:str', 'export': 'any', 'accessLock': 'rlock', 'updateLock': 'rlock',
                            'paramCallbacks': 'dict', 'updateCallback': 'callable:updateCallback', 'log': 'any'},
-                   inv=['ModInv(self)']),
-    'SecNode': dict(fields={'modules': 'dict:Module', 'export': 'list:str'}, inv=['SecInv(self)']),
+                   elem_inv={'accessiblename2attr': 'WireOk(self, k, v)', 'parameters': 'ParamOk(self, k, v)',
+                             'commands': 'CommandOk(self, k, v)'}),
+    'SecNode': dict(fields={'modules': 'dict:Module', 'export': 'list:str'}, elem_inv={'modules': 'ModuleOk(self, k, v)'}),
     'Dispatcher': dict(fields={'secnode': 'SecNode', 'log': 'any'}, inv=['inv(self.secnode)']),
 }
 
 
-def ModInv(m):
-    """representation invariant of a module instance (wire names map to exported accessibles only)"""
-    return (forall_str(lambda w: implies(w in m.accessiblename2attr,
-                                         is_str(m.accessiblename2attr[w])
-                                         and (m.accessiblename2attr[w] in m.parameters or m.accessiblename2attr[w] in m.commands)))
-            and forall_str(lambda n: implies(n in m.parameters, inv(m.parameters[n]) and m.parameters[n].name == n
-                                             and not (n in m.commands)))
-            and forall_str(lambda n: implies(n in m.commands, inv(m.commands[n]) and m.commands[n].name == n))
-            # the generated write wrapper exists for every parameter that is not read-only
-            and forall_str(lambda n: implies(n in m.parameters and not m.parameters[n].readonly,
-                                             has_dyn(m, 'write_' + n)))
-            and forall_str(lambda n: implies(n in m.parameters, has_dyn(m, 'read_' + n))))
+def WireOk(m, k, v):
+    """wire names map to (names of) exported parameters or commands"""
+    return is_str(v) and (v in m.parameters or v in m.commands)
 
 
-def SecInv(sn):
-    return forall_str(lambda n: implies(n in sn.modules, inv(sn.modules[n]) and sn.modules[n].name == n))
+def ParamOk(m, k, v):
+    return (inv(v) and v.name == k and not (k in m.commands)
+            # the generated wrappers exist: read_<p> always, write_<p> unless the parameter is read-only
+            and has_dyn(m, 'read_' + k) and (v.readonly or has_dyn(m, 'write_' + k)))
+
+
+def CommandOk(m, k, v):
+    return inv(v) and v.name == k
+
+
+def ModuleOk(sn, k, v):
+    return inv(v) and v.name == k
 
 
 def AtMostOneMore(old_log, new_log):
